@@ -47,6 +47,7 @@ type funcContract struct {
 	maypanic bool // panic sites are not obligations
 	refines  string
 	noframe  bool
+	noinv    bool
 	where    string
 }
 
@@ -93,6 +94,77 @@ type contractSet struct {
 	lemmas      []*lemmaDecl
 	files       []string
 	order       []string // func keys in file order
+	invariants  []*typeInvariant
+}
+
+// typeInvariant is sugar: the expression is added to the requires and ensures of
+// every method contract (same package, same receiver type) that does not say `noinv`.
+type typeInvariant struct {
+	pkgPath  string
+	recvName string
+	recvType string
+	src      string
+	e        cexpr
+	where    string
+}
+
+// renameIdent substitutes identifier `from` by `to` in an expression.
+func renameIdent(x cexpr, from, to string) cexpr {
+	switch x := x.(type) {
+	case *cIdent:
+		if x.name == from {
+			return &cIdent{to}
+		}
+		return x
+	case *cUnary:
+		return &cUnary{x.op, renameIdent(x.x, from, to)}
+	case *cBinary:
+		return &cBinary{x.op, renameIdent(x.x, from, to), renameIdent(x.y, from, to)}
+	case *cCall:
+		var as []cexpr
+		for _, a := range x.args {
+			as = append(as, renameIdent(a, from, to))
+		}
+		return &cCall{renameIdent(x.fun, from, to), as}
+	case *cSel:
+		return &cSel{renameIdent(x.x, from, to), x.name}
+	case *cIndex:
+		return &cIndex{renameIdent(x.x, from, to), renameIdent(x.idx, from, to)}
+	case *cSlice:
+		var lo, hi cexpr
+		if x.lo != nil {
+			lo = renameIdent(x.lo, from, to)
+		}
+		if x.hi != nil {
+			hi = renameIdent(x.hi, from, to)
+		}
+		return &cSlice{renameIdent(x.x, from, to), lo, hi}
+	case *cQuant:
+		for _, v := range x.vars {
+			if v.name == from {
+				return x
+			}
+		}
+		return &cQuant{x.forall, x.vars, renameIdent(x.body, from, to)}
+	case *cCond:
+		return &cCond{renameIdent(x.c, from, to), renameIdent(x.a, from, to), renameIdent(x.b, from, to)}
+	}
+	return x
+}
+
+// applyInvariants expands type invariants into the method contracts.
+func (cs *contractSet) applyInvariants() {
+	for _, inv := range cs.invariants {
+		for _, k := range cs.order {
+			fc := cs.funcs[k]
+			if fc.pkgPath != inv.pkgPath || fc.recvType == nil || fc.recvType.String() != inv.recvType || fc.noinv || fc.isIface {
+				continue
+			}
+			e := renameIdent(inv.e, inv.recvName, fc.recvName)
+			fc.requires = append(fc.requires, clause{src: inv.src + " [invariant]", e: e, label: fmt.Sprintf("pre:%d", len(fc.requires)+1), where: inv.where})
+			fc.ensures = append(fc.ensures, clause{src: inv.src + " [invariant]", e: e, label: fmt.Sprintf("post:inv%d", len(fc.ensures)+1), where: inv.where})
+		}
+	}
 }
 
 func newContractSet() *contractSet {
@@ -102,7 +174,7 @@ func newContractSet() *contractSet {
 var clauseKeywords = map[string]bool{
 	"prop": true, "requires": true, "ensures": true, "modifies": true, "loop": true, "trusted": true,
 	"pure": true, "panics-if": true, "nopanic": true, "maypanic": true, "mode": true, "decreases": true, "refines": true,
-	"noframe": true, "using": true,
+	"noframe": true, "using": true, "noinv": true,
 }
 
 var reLoop = regexp.MustCompile(`^(\d+)\s*:\s*(invariant|decreases)\s+(.*)$`)
@@ -136,7 +208,7 @@ func (cs *contractSet) loadContractFile(path, pkgPath string) error {
 		trim := strings.TrimSpace(body)
 		first := strings.Fields(trim)[0]
 		indent := len(body) - len(strings.TrimLeft(body, " \t"))
-		isHead := indent <= 1 && (first == "func" || first == "spec" || first == "axiom" || first == "lemma" || first == "ghost" || first == "interface" || first == "package")
+		isHead := indent <= 1 && (first == "func" || first == "spec" || first == "axiom" || first == "lemma" || first == "ghost" || first == "interface" || first == "package" || first == "invariant")
 		if isHead {
 			cur = &rawBlock{head: trim, line: i + 1}
 			blocks = append(blocks, cur)
@@ -163,6 +235,26 @@ func (cs *contractSet) loadContractFile(path, pkgPath string) error {
 		switch f[0] {
 		case "package":
 			pkgPath = f[1]
+			if pkgPath == "builtin" {
+				pkgPath = ""
+			}
+		case "invariant":
+			// invariant (w *Writer) expr
+			rest := strings.TrimSpace(strings.TrimPrefix(b.head, "invariant"))
+			end := strings.Index(rest, ")")
+			if !strings.HasPrefix(rest, "(") || end < 0 {
+				return fmt.Errorf("%s: bad invariant", where)
+			}
+			rf := strings.Fields(rest[1:end])
+			if len(rf) != 2 {
+				return fmt.Errorf("%s: bad invariant receiver", where)
+			}
+			src := strings.TrimSpace(rest[end+1:])
+			e, err := parseCExpr(src)
+			if err != nil {
+				return fmt.Errorf("%s: %v", where, err)
+			}
+			cs.invariants = append(cs.invariants, &typeInvariant{pkgPath: pkgPath, recvName: rf[0], recvType: rf[1], src: src, e: e, where: where})
 		case "ghost":
 			if len(f) >= 4 && f[1] == "var" {
 				ty, err := parseTypeString(strings.Join(f[3:], " "))
@@ -268,6 +360,8 @@ func (cs *contractSet) loadContractFile(path, pkgPath string) error {
 					fc.maypanic = true
 				case "noframe":
 					fc.noframe = true
+				case "noinv":
+					fc.noinv = true
 				case "refines":
 					fc.refines = rest
 				case "mode":
